@@ -7,6 +7,20 @@ HERE = os.path.dirname(os.path.dirname(os.path.abspath(__file__)))
 ALL = ["C%02d" % i for i in range(1, 21)]
 
 CLAIMED = {
+    "C07": dict(
+        category="model_checking",
+        text=("EclFileFormat.tla holds the published on-disk layout and a transcription of the implementation's seek "
+              "arithmetic; TLC checks their agreement for every type x every length 0..2002 (thorough) / dense boundary "
+              "set (quick) and for all array pairs.  Files written by the real EclOutput (TLC-enumerated pairs, a sweep "
+              "over every type x length x {formatted,unformatted} x {ECL,IX}, seeded random sequences) are scanned by an "
+              "independent byte scanner and read by the real EclFile; TLC validates each recorded file against the "
+              "layout: offsets, record/line structure, head=tail, the reader's data positions and seek positions, and "
+              "the value-fidelity booleans (bit-exact unformatted, printed precision formatted)."),
+        design_ref="DESIGN.md section 5, C07",
+        note=("Trusted: TLC, the independent scanner/decoder (harness/eclscan.hpp), the layout constants in the spec "
+              "(taken from the file-format description, not from EclIOdata.hpp). X231 headers not exercised."),
+        technique="TLA+ layout specification checked with TLC + trace validation of files produced/read by the real classes",
+    ),
     "C08": dict(
         category="model_checking",
         text=("TLC checks the write/rewind/crash model (UnifiedRestart over EclFileFormat) exhaustively within small "
